@@ -459,12 +459,15 @@ impl FileManager {
 
         for index_name in self.list_indexes(schema, table)? {
             let index_path = self.index_file_path(schema, table, &index_name);
+            self.open_files
+                .remove(&Self::make_index_key(schema, table, &index_name));
             fs::remove_file(&index_path).wrap_err_with(|| {
                 format!("failed to remove index file '{}'", index_path.display())
             })?;
         }
 
         let table_path = self.table_file_path(schema, table);
+        self.open_files.remove(&Self::make_table_key(schema, table));
         fs::remove_file(&table_path)
             .wrap_err_with(|| format!("failed to remove table file '{}'", table_path.display()))?;
 
